@@ -117,6 +117,12 @@ FreshOf(s, D) ==
 \* C06 (model): after ANY history the primary maps equal those of the fresh index
 HistoryIndependent == PrimaryOf(st.ix) = PrimaryOf(FreshOf(st, AllDevs))
 
+\* C06, second clause (model): the undeclared-fixture findings of the document changed last are those a fresh server
+\* produces when it analyses that document last (okOrder ends with it)
+UndeclIndependent ==
+    (hist # <<>> /\ hist[Len(hist)].t = "edit" /\ VersionsOf[hist[Len(hist)].f][hist[Len(hist)].v].valid) =>
+        st.ix.undecl[hist[Len(hist)].f] = FreshOf(st, AllDevs).undecl[hist[Len(hist)].f]
+
 \* C04 (model): the reverse index mirrors the per-file usages in every reachable state
 MirrorAlways ==
     \A n \in HNames : \A f \in Files :
@@ -215,7 +221,12 @@ HVersions ==
                           Module(<<PlainDef("n", <<>>), Test("test_1", <<"n">>)>>),
                           Module(<<Test("test_1", <<"x">>)>>),
                           Broken(<<Test("test_1", <<"n">>)>>),
-                          Module(<<Test("test_1", <<"n">>), Test("test_2", <<"n", "x">>)>>) >>
+                          Module(<<Test("test_1", <<"n">>), Test("test_2", <<"n", "x">>)>>),
+                          \* bodies that USE names without declaring them (undeclared-fixture findings are index state):
+                          \* with no same-file fixture; below a same-file fixture of another name
+                          \* (a same-file fixture counts only once it has been recorded: the one BELOW the use does not)
+                          Module(<<TestB("test_1", <<>>, <<"n", "x">>)>>),
+                          Module(<<PlainDef("x", <<>>), TestB("test_1", <<>>, <<"n", "x">>), PlainDef("n", <<>>)>>) >>
          [] f = "h" -> << Module(<<PlainDef("n", <<>>)>>),
                           Module(<<PlainDef("x", <<>>)>>),
                           Module(<<>>),
